@@ -102,11 +102,13 @@ def case_block(ds, jnp, case, res, fail):
   shape, g, pcs, cr = case["shape"], case["g"], case["preconds"], case["cr"]
   n = len(shape)
   f64 = jnp.float64
-  gj = jnp.array(g, f64).reshape(shape)
-  pre = ds.Preconditioner(jnp.zeros(shape, f64), 10 ** 6, 1, False,
+  gdt = getattr(jnp, case.get("gdtype", "float64"))
+  pdt = getattr(jnp, case.get("pdtype", "float64"))
+  gj = jnp.array(g, gdt).reshape(shape)
+  pre = ds.Preconditioner(jnp.zeros(shape, gdt), 10 ** 6, 1, False,
                           ds.PreconditionerType.ALL, cr)
   should = [p["kind"] != "none" for p in pcs]
-  mats = [None if p["kind"] == "none" else jnp.array(p["m"], f64) for p in pcs]
+  mats = [None if p["kind"] == "none" else jnp.array(p["m"], pdt) for p in pcs]
   out = pre._precondition_block(gj, should, mats)
   if tuple(out.shape) != tuple(shape):
     fail("result shape %s != %s" % (tuple(out.shape), tuple(shape)))
